@@ -4,6 +4,9 @@
   rename-locals     every function-local variable that is safe to rename gets a new name (x -> x_r)
   invert-branches   `if c: A else: B` with a simple test becomes `if not c: B else: A`
   return-via-local  `return <expr>` becomes `rv_ = <expr>; return rv_`
+  hoist-call-args   positional arguments that are calls are evaluated into locals first
+  comp-to-loop      `x = [E for t in IT if c]` becomes `x = []; for t_k in IT: if c: x.append(E)`
+  guard-clauses     a trailing `if c: A else: B` of a loop body / procedure becomes `if c: A; continue|return` followed by B
 
 A rule that depends on how a local is called, or on which arm of an `if` is written first, alarms or errs on these."""
 from __future__ import annotations
@@ -270,6 +273,108 @@ class _HoistCallArgs(ast.NodeTransformer):
         return node
 
 
+class _GuardClauses(ast.NodeTransformer):
+    """an `if c: A else: B` that is the LAST statement of a loop body becomes `if c: A; continue` followed by B; as the last
+    statement of a function that returns nothing it becomes `if c: A; return` followed by B.  (The else arm must not be a single
+    nested `if` - an elif chain keeps its shape - and A must not already end in a jump.)"""
+
+    def __init__(self):
+        self.count = 0
+
+    @staticmethod
+    def _jumps(stmts):
+        return bool(stmts) and isinstance(stmts[-1], (ast.Return, ast.Raise, ast.Continue, ast.Break))
+
+    def _tail(self, body, jump):
+        if not body or not isinstance(body[-1], ast.If):
+            return body
+        last = body[-1]
+        if not last.orelse or (len(last.orelse) == 1 and isinstance(last.orelse[0], ast.If)) or self._jumps(last.body):
+            return body
+        self.count += 1
+        guard = ast.copy_location(ast.If(test=last.test, body=list(last.body) + [ast.copy_location(jump(), last)], orelse=[]), last)
+        return body[:-1] + [guard] + list(last.orelse)
+
+    def visit_For(self, n):
+        self.generic_visit(n)
+        if not n.orelse:
+            n.body = self._tail(n.body, ast.Continue)
+        return n
+
+    visit_While = visit_For
+
+    def visit_FunctionDef(self, n):
+        self.generic_visit(n)
+        own_returns = []
+        stack = list(n.body)
+        while stack:
+            x = stack.pop()
+            if isinstance(x, (ast.FunctionDef, ast.AsyncFunctionDef, ast.Lambda, ast.ClassDef)):
+                continue
+            if isinstance(x, ast.Return):
+                own_returns.append(x)
+            if isinstance(x, (ast.Yield, ast.YieldFrom)):
+                return n
+            stack.extend(ast.iter_child_nodes(x))
+        if all(r.value is None for r in own_returns):
+            n.body = self._tail(n.body, lambda: ast.Return(value=None))
+        return n
+
+
+class _CompToLoop(ast.NodeTransformer):
+    """`x = [E for t in IT if c]` (a plain assignment of a list comprehension with one generator, no nested comprehension or lambda
+    inside) becomes `x = []; for t_k in IT: if c: x.append(E)` with the loop variable renamed to a fresh name (a comprehension
+    variable does not leak, a loop variable does).  Not when x occurs in the comprehension itself."""
+
+    def __init__(self):
+        self.count = 0
+        self.k = 0
+
+    def _body(self, stmts):
+        out = []
+        for st in stmts:
+            v = st.value if isinstance(st, ast.Assign) and len(st.targets) == 1 and isinstance(st.targets[0], ast.Name) else None
+            if isinstance(v, ast.ListComp) and len(v.generators) == 1 and not v.generators[0].is_async \
+                    and not any(isinstance(x, (ast.ListComp, ast.SetComp, ast.DictComp, ast.GeneratorExp, ast.Lambda, ast.NamedExpr, ast.Await,
+                                               ast.Yield, ast.YieldFrom)) for y in [v.elt] + v.generators[0].ifs + [v.generators[0].iter]
+                               for x in ast.walk(y)) \
+                    and not any(isinstance(x, ast.Name) and x.id == st.targets[0].id for x in ast.walk(v)):
+                g = v.generators[0]
+                names = [x.id for x in ast.walk(g.target) if isinstance(x, ast.Name)]
+                ren = {}
+                for nm in names:
+                    ren[nm] = f'{nm}_c{self.k}'
+                self.k += 1
+                r = _Rename(ren)
+                tgt = r.visit(g.target)
+                elt = r.visit(v.elt)
+                ifs = [r.visit(c) for c in g.ifs]
+                x = st.targets[0].id
+                app = ast.Expr(value=ast.Call(func=ast.Attribute(value=ast.Name(id=x, ctx=ast.Load()), attr='append', ctx=ast.Load()),
+                                              args=[elt], keywords=[]))
+                body = [app]
+                for c in reversed(ifs):
+                    body = [ast.If(test=c, body=body, orelse=[])]
+                for_ = ast.For(target=tgt, iter=g.iter, body=body, orelse=[])
+                for t in ast.walk(for_.target):
+                    if isinstance(t, ast.Name):
+                        t.ctx = ast.Store()
+                init = ast.Assign(targets=[ast.Name(id=x, ctx=ast.Store())], value=ast.List(elts=[], ctx=ast.Load()))
+                out.extend([ast.copy_location(init, st), ast.copy_location(for_, st)])
+                self.count += 1
+            else:
+                out.append(st)
+        return out
+
+    def generic_visit(self, node):
+        super().generic_visit(node)
+        for fld in ('body', 'orelse', 'finalbody'):
+            v = getattr(node, fld, None)
+            if isinstance(v, list) and v and isinstance(v[0], ast.stmt) and not isinstance(node, (ast.ClassDef, ast.Module)):
+                setattr(node, fld, self._body(v))
+        return node
+
+
 def apply(kind: str, root: str) -> int:
     total = 0
     for fp in _py_files(root):
@@ -288,6 +393,14 @@ def apply(kind: str, root: str) -> int:
             total += t.count
         elif kind == 'return-via-local':
             t = _ReturnViaLocal()
+            tree = t.visit(tree)
+            total += t.count
+        elif kind == 'comp-to-loop':
+            t = _CompToLoop()
+            tree = t.visit(tree)
+            total += t.count
+        elif kind == 'guard-clauses':
+            t = _GuardClauses()
             tree = t.visit(tree)
             total += t.count
         elif kind == 'unparse-all':
